@@ -3,3 +3,88 @@
 //! Nothing in here is compiled unless the `verif_hooks` feature is enabled.
 
 pub use crate::loader::safe_join;
+
+/// C11: thread-local high-water marks of nested interpreter activations
+/// (`Executor::eval_impl`) and of `Context::depth()`, plus the stack pointer
+/// at the outermost and at the deepest activation.
+pub mod recursion {
+    use std::cell::Cell;
+
+    thread_local! {
+        static NATIVE: Cell<usize> = Cell::new(0);
+        static NATIVE_HW: Cell<usize> = Cell::new(0);
+        static DEPTH_HW: Cell<usize> = Cell::new(0);
+        static SP_TOP: Cell<usize> = Cell::new(0);
+        static SP_LOW: Cell<usize> = Cell::new(usize::MAX);
+    }
+
+    /// Snapshot of the marks since the last [`reset`].
+    #[derive(Debug, Clone, Copy, PartialEq, Eq)]
+    pub struct Marks {
+        /// interpreter activations currently on the native stack
+        pub native: usize,
+        /// highest number of simultaneously nested interpreter activations
+        pub native_high_water: usize,
+        /// highest `Context::depth()` that was accepted by the depth check
+        /// or seen at the start of an activation
+        pub depth_high_water: usize,
+        /// address of a local at the first outermost activation (0 = none)
+        pub sp_top: usize,
+        /// lowest address of a local seen at the start of an activation
+        pub sp_low: usize,
+    }
+
+    /// Marks one interpreter activation; dropped when the activation ends.
+    pub struct Activation(());
+
+    #[inline(never)]
+    pub(crate) fn enter(depth: usize) -> Activation {
+        let marker = 0u8;
+        let sp = &marker as *const u8 as usize;
+        let n = NATIVE.with(|x| {
+            x.set(x.get() + 1);
+            x.get()
+        });
+        NATIVE_HW.with(|x| x.set(x.get().max(n)));
+        if n == 1 {
+            SP_TOP.with(|x| {
+                if x.get() == 0 {
+                    x.set(sp)
+                }
+            });
+        }
+        SP_LOW.with(|x| x.set(x.get().min(sp)));
+        note_depth(depth);
+        Activation(())
+    }
+
+    impl Drop for Activation {
+        fn drop(&mut self) {
+            NATIVE.with(|x| x.set(x.get().saturating_sub(1)));
+        }
+    }
+
+    pub(crate) fn note_depth(depth: usize) {
+        DEPTH_HW.with(|x| x.set(x.get().max(depth)));
+    }
+
+    /// Returns the marks of the current thread.
+    pub fn marks() -> Marks {
+        Marks {
+            native: NATIVE.with(|x| x.get()),
+            native_high_water: NATIVE_HW.with(|x| x.get()),
+            depth_high_water: DEPTH_HW.with(|x| x.get()),
+            sp_top: SP_TOP.with(|x| x.get()),
+            sp_low: SP_LOW.with(|x| x.get()),
+        }
+    }
+
+    /// Resets the marks of the current thread.
+    pub fn reset() {
+        NATIVE.with(|x| x.set(0));
+        NATIVE_HW.with(|x| x.set(0));
+        DEPTH_HW.with(|x| x.set(0));
+        SP_TOP.with(|x| x.set(0));
+        SP_LOW.with(|x| x.set(usize::MAX));
+    }
+}
